@@ -402,14 +402,14 @@ def h_option_flatten(pattern, deep):
 
 
 def widen(jobs, tier):
-    """the same harnesses over the 32-bit and unsigned 32-bit specialisations of the list classes (every job in the thorough tier, one in four in
+    """the same harnesses over the 32-bit and unsigned 32-bit specialisations of the list classes (every job over both narrower widths in the thorough tier, over one of them - alternating - in
     the quick tier): the template branches that differ per index width are C++ code of their own"""
     extra = []
     for k, (fn, args, lim) in enumerate(jobs):
         if args and isinstance(args[0], str) and args[0] in ('ListOffsetArray64', 'ListArray64') and fn.__name__ not in WIDEN_SKIP:
             for w in ('32', 'U32'):
-                if tier == 'quick' and (k + (w == 'U32')) % 4:
-                    continue
+                if tier == 'quick' and (k + (w == 'U32')) % 2:
+                    continue            # quick: every harness over one of the two narrower widths (alternating), thorough: both
                 extra.append((fn, (args[0][:-2] + w,) + tuple(args[1:]), lim))
     return jobs + extra
 
